@@ -371,6 +371,8 @@ def memo_key_rule(chk: Check, rule: str, fns: list[FuncInfo], suppress: dict[tup
                         break
                     else:
                         break
+                if isinstance(b, ast.Attribute) and dotted(b) is not None:
+                    keys.append(b)  # the object the cache lives on (`self._x_cache`) is part of the key by construction
                 stores.append((s, keys, s.value))
             elif isinstance(s, ast.Expr) and isinstance(s.value, ast.Call) and (last_attr(s.value) or "").startswith("insert_") and len(s.value.args) >= 2 and "cache" in unparse(s.value.func, 100).lower():
                 c = s.value
@@ -395,6 +397,10 @@ def memo_key_rule(chk: Check, rule: str, fns: list[FuncInfo], suppress: dict[tup
             missing = [d for d in missing if not any(d == o or d.startswith(o + ".") for o in owners)]
             # a whole-object dependency (`generation_config` passed on) is covered by any key derived from that object
             missing = [d for d in missing if not any(k.split(".")[0] == d for k in key_chains if "." not in d)]
+            # identity keys: an API operation is identified by its label within one schema (the caches looked at live on
+            # the schema), so a key `<op>.label` covers everything read from `<op>`
+            ident = {k.rsplit(".", 1)[0] for k in key_chains if k.endswith(".label")}
+            missing = [d for d in missing if not any(d == o or d.startswith(o + ".") for o in ident)]
             # key: the cache being written (module-level name / attribute), not the incidental local names
             tgt_ = site.targets[0] if isinstance(site, ast.Assign) else (site.value.func if isinstance(site, ast.Expr) else site)  # type: ignore[union-attr]
             roots_ = [x for x in ast.walk(tgt_) if (isinstance(x, ast.Name) and x.id.isupper()) or (isinstance(x, ast.Attribute) and "cache" in x.attr.lower())]
